@@ -1,2 +1,7 @@
 -- family hashring: C18 C19 C20 C21 C27.  Everything listed here must build: it is part of `lake build`.
 import Thanos.Driver.Hashring
+import Thanos.Props.C18
+import Thanos.Props.C19
+import Thanos.Props.C20
+import Thanos.Props.C21
+import Thanos.Props.C27
